@@ -2,7 +2,9 @@ package main
 
 import (
 	"fmt"
+	"go/token"
 	"go/types"
+	"strings"
 
 	"golang.org/x/tools/go/ssa"
 )
@@ -107,6 +109,79 @@ func (sh *Shared) bindDecls(cs *ContractSet) error {
 			gi.writes[m] = true
 		}
 		sh.guards[w.fieldHeapKey(t, gi.fieldIdx)] = gi
+	}
+	// closures stored into function-typed struct fields that have a `funcfield` contract
+	hasFieldContracts := false
+	for k := range cs.ByKey {
+		if strings.Contains(k, ".field:") {
+			hasFieldContracts = true
+		}
+	}
+	if hasFieldContracts {
+		var closureOf func(v ssa.Value, depth int) []*ssa.Function
+		closureOf = func(v ssa.Value, depth int) []*ssa.Function {
+			if depth > 4 {
+				return nil
+			}
+			switch x := v.(type) {
+			case *ssa.MakeClosure:
+				if f, ok := x.Fn.(*ssa.Function); ok {
+					return []*ssa.Function{f}
+				}
+			case *ssa.Function:
+				return []*ssa.Function{x}
+			case *ssa.ChangeType:
+				return closureOf(x.X, depth+1)
+			case *ssa.Phi:
+				var out []*ssa.Function
+				for _, e := range x.Edges {
+					out = append(out, closureOf(e, depth+1)...)
+				}
+				return out
+			case *ssa.UnOp:
+				if al, ok := x.X.(*ssa.Alloc); ok && x.Op == token.MUL {
+					var out []*ssa.Function
+					if refs := al.Referrers(); refs != nil {
+						for _, r := range *refs {
+							if st, ok := r.(*ssa.Store); ok && st.Addr == al {
+								out = append(out, closureOf(st.Val, depth+1)...)
+							}
+						}
+					}
+					return out
+				}
+			}
+			return nil
+		}
+		for _, fn := range sh.repoFuncs {
+			for _, b := range fn.Blocks {
+				for _, in := range b.Instrs {
+					st, ok := in.(*ssa.Store)
+					if !ok {
+						continue
+					}
+					fa, ok := st.Addr.(*ssa.FieldAddr)
+					if !ok {
+						continue
+					}
+					stt, ok := derefType(fa.X.Type()).Underlying().(*types.Struct)
+					if !ok {
+						continue
+					}
+					nt, ok := derefType(fa.X.Type()).(*types.Named)
+					if !ok || nt.Obj().Pkg() == nil {
+						continue
+					}
+					key := nt.Obj().Pkg().Name() + ".field:" + nt.Obj().Name() + "." + stt.Field(fa.Field).Name()
+					if cs.ByKey[key] == nil {
+						continue
+					}
+					for _, f := range closureOf(st.Val, 0) {
+						sh.fieldOfClosure[f] = key
+					}
+				}
+			}
+		}
 	}
 	for _, fn := range sh.repoFuncs {
 		sh.mayLockMemo[fn] = sh.mayLockRec(fn, map[*ssa.Function]bool{})
